@@ -361,9 +361,12 @@ fn pop_finalized(mid: usize, dst: Option<RootRef>) {
             }
         }
         w.count("finalized_popped");
+        // While concurrent marking is in progress a popped object is not stored into a root: it is
+        // neither part of the snapshot nor newly allocated and there is no barrier for this
+        // path, so the program would not be SATB-legal.
         match dst {
-            Some(r) => w.set_root(mid, r, id, raw),
-            None => {}
+            Some(r) if !w.satb_active => w.set_root(mid, r, id, raw),
+            _ => {}
         }
     });
 }
